@@ -125,10 +125,10 @@ open Lean Elab Command
 """
 
 
-def lean_audit(module):
+def lean_audit(module, nsprefix=None):
     """Returns {theorem: [axioms]} for every theorem declared in `module` (a Props file)
-    inside the property's own namespace `Opcua.<Cxx>`."""
-    nsprefix = "Opcua." + module.rsplit(".", 1)[1] + "."
+    inside the property's own namespace `Opcua.<Cxx>` (or the given prefix)."""
+    nsprefix = nsprefix or ("Opcua." + module.rsplit(".", 1)[1] + ".")
     cache_dir = os.path.join(LEAN, ".lake", "audit")
     os.makedirs(cache_dir, exist_ok=True)
     key = lean_hash()
@@ -157,6 +157,39 @@ def lean_audit(module):
             thms[m.group(1)] = axs
     json.dump({"key": key, "theorems": thms}, open(cpath, "w"))
     return {k: v for k, v in thms.items() if k.startswith(nsprefix)}, False
+
+
+# ----------------------------------------------------------------------------------------------
+# tie (A): the NodeId kernel regenerated from the Python source
+# ----------------------------------------------------------------------------------------------
+def translator_tie():
+    """Translate value_parser.cached_parse_nodeid / parse_nodeid and UANodeId.__str__ from /repo's current source.
+    identical to the committed Gen/NodeIdGen.lean -> the built tie theorems (Gen/NodeIdTie.lean: generated = hand model,
+    and the C09 theorems restated for the generated definitions) are about the code as it is now;
+    different -> the tie theorems are re-checked against the regenerated definitions in a scratch file;
+    if that fails (or the source left the translator's subset) the kernel is tied by correspondence only.
+    Never a verdict by itself."""
+    tr = os.path.join(VERIF, "translator", "py2lean.py")
+    rc, out, err = sh([sys.executable, "-B", tr, REPO], timeout=120)
+    committed = open(os.path.join(LEAN, "OpcuaModel", "Gen", "NodeIdGen.lean"), encoding="utf-8").read()
+    if rc != 0:
+        return {"tie": "correspondence-only", "reason": "translator: " + (err.strip().splitlines() or ["failed"])[-1][:300]}
+    if out == committed:
+        return {"tie": "regenerated-identical", "generated_definitions": ["cached_parse_nodeid", "parse_nodeid", "nodeid_str"]}
+    tie = open(os.path.join(LEAN, "OpcuaModel", "Gen", "NodeIdTie.lean"), encoding="utf-8").read()
+    body = "\n".join(l for l in out.splitlines() if not l.startswith("import "))
+    tie_body = "\n".join(l for l in tie.splitlines() if not l.startswith("import "))
+    d = tempfile.mkdtemp(prefix="opcua_tie_")
+    try:
+        f = os.path.join(d, "Tie.lean")
+        open(f, "w", encoding="utf-8").write("import OpcuaModel.Gen.PyPrims\nimport OpcuaModel.Props.C09\n" + body + "\n" + tie_body + "\n")
+        rc2, out2, err2 = sh(["lake", "env", "lean", f], cwd=LEAN, timeout=900)
+    finally:
+        shutil.rmtree(d, ignore_errors=True)
+    if rc2 == 0 and "sorry" not in out2:
+        return {"tie": "regenerated-reproved", "note": "the source differs from the pinned one; the tie theorems check against the regenerated definitions"}
+    first = [l for l in (out2 + err2).splitlines() if "error" in l][:3]
+    return {"tie": "correspondence-only", "reason": "tie theorems do not check against the regenerated definitions: " + " | ".join(first)[:500]}
 
 
 # ----------------------------------------------------------------------------------------------
